@@ -96,6 +96,14 @@ class VRLock(VLock):
     _reentrant = True
 
 
+class _Waiter:
+    """identity-compared wake-up token (a list would compare by value)"""
+    __slots__ = ('flag',)
+
+    def __init__(self):
+        self.flag = False
+
+
 class VCondition:
     def __init__(self, lock=None, name=None):
         self.name = _name('cond', name)
@@ -115,17 +123,17 @@ class VCondition:
         if not self._lock._is_owned():
             raise RuntimeError('cannot wait on un-acquired lock')
         s.yield_point('cond.wait')
-        w = [False]
+        w = _Waiter()
         self._waiters.append(w)
         st = self._lock._release_save()
         try:
-            ok = s.block_until(lambda: w[0], timeout, what=f'wait({self.name})')
+            ok = s.block_until(lambda: w.flag, timeout, what=f'wait({self.name})')
             if not ok:
                 try:
                     self._waiters.remove(w)
                 except ValueError:
                     pass
-                ok = w[0]
+                ok = w.flag
             return ok
         finally:
             if not s.aborting:
@@ -155,11 +163,101 @@ class VCondition:
         s.yield_point('cond.notify')
         while self._waiters and n > 0:
             w = self._waiters.popleft()
-            w[0] = True
+            w.flag = True
             n -= 1
 
     def notify_all(self):
         self.notify(len(self._waiters) + 1)
+
+
+class LCondition(VCondition):
+    """VCondition that logs lock and wait/notify traffic (for conditions the models represent)."""
+    logname = 'cond'
+
+    def __enter__(self):
+        r = self._lock.acquire()
+        S().ev('lock_acq', self.logname)
+        return r
+
+    def __exit__(self, *a):
+        s = S()
+        s.yield_point('lock.release')
+        st = self._lock
+        st.count -= 1
+        if st.count == 0:
+            st.owner = None
+        s.ev('lock_rel', self.logname)
+
+    def wait(self, timeout=None):
+        s = S()
+        if not self._lock._is_owned():
+            raise RuntimeError('cannot wait on un-acquired lock')
+        s.yield_point('cond.wait')
+        w = _Waiter()
+        self._waiters.append(w)
+        st = self._lock._release_save()
+        s.ev('cond_wait', self.logname)
+        ok = False
+        try:
+            ok = s.block_until(lambda: w.flag, timeout, what=f'wait({self.name})')
+            if not ok:
+                try:
+                    self._waiters.remove(w)
+                except ValueError:
+                    pass
+                s.ev('cond_expire', self.logname)
+            return ok
+        finally:
+            if not s.aborting:
+                self._lock._acquire_restore(st)
+                s.ev('cond_woke', self.logname, ok)
+
+    def notify(self, n=1):
+        s = S()
+        if not self._lock._is_owned():
+            raise RuntimeError('cannot notify on un-acquired lock')
+        s.yield_point('cond.notify')
+        k = 0
+        while self._waiters and n > 0:
+            w = self._waiters.popleft()
+            w.flag = True
+            n -= 1
+            k += 1
+        s.ev('cond_notify', self.logname, k)
+
+
+class LoggingDict(dict):
+    """dict whose len / item assignment / pop are yield points and are logged (the server's ledger)."""
+    logname = 'ledger'
+
+    def raw_len(self):
+        return dict.__len__(self)
+
+    def __len__(self):
+        s = detsched.CURRENT
+        if s is None or not s.managed() or s.atomic:
+            return dict.__len__(self)
+        s.yield_point('dict.len')
+        n = dict.__len__(self)
+        s.ev('ledger_len', self.logname, n)
+        return n
+
+    def __setitem__(self, k, v):
+        s = detsched.CURRENT
+        if s is None or not s.managed():
+            return dict.__setitem__(self, k, v)
+        s.yield_point('dict.set')
+        dict.__setitem__(self, k, v)
+        s.ev('ledger_set', self.logname, k)
+
+    def pop(self, k, *default):
+        s = detsched.CURRENT
+        if s is None or not s.managed():
+            return dict.pop(self, k, *default)
+        s.yield_point('dict.pop')
+        found = dict.__contains__(self, k)
+        s.ev('ledger_pop', self.logname, (k, found))
+        return dict.pop(self, k, *default)
 
 
 class VEvent:
@@ -394,13 +492,21 @@ def make_futures_module():
         def set_result(self, result):
             S().yield_point('fut.set_result')
             with atomic:
-                super().set_result(result)
+                try:
+                    super().set_result(result)
+                except BaseException:
+                    S().ev('fut_set_failed', self.vid, result)
+                    raise
                 S().ev('fut_done', self.vid, result)
 
         def set_exception(self, exception):
             S().yield_point('fut.set_exception')
             with atomic:
-                super().set_exception(exception)
+                try:
+                    super().set_exception(exception)
+                except BaseException:
+                    S().ev('fut_set_failed', self.vid, exception)
+                    raise
                 S().ev('fut_done', self.vid, exception)
 
         def cancel(self):
@@ -465,6 +571,10 @@ def make_concurrent_ns():
                 setattr(fut, k, getattr(real, k))
             except Exception:
                 pass
+    import concurrent.futures._base as rbase
+    for k in ('Error', 'CancelledError', 'TimeoutError', 'InvalidStateError', 'BrokenExecutor',
+              'FIRST_COMPLETED', 'FIRST_EXCEPTION', 'ALL_COMPLETED'):
+        setattr(fut, k, getattr(rbase, k))
     fut.Future = fm.Future
     fut.wait = fm.wait
     fut.as_completed = fm.as_completed
